@@ -26,7 +26,7 @@ for p in props:
         'evidence_file': f'evidence/{pid}.json',
         'replay_cmd_template': f'./check {pid} --replay {{path}}',
         'engine': 'lean4-proof+correspondence',
-        'level_claimed': {'category': 'proof', 'text': claim['text'], 'design_ref': claim.get('design_ref', f'DESIGN.md section 6 ({pid})')},
+        'level_claimed': {'category': 'proof', 'text': claim['text'], 'design_ref': claim.get('design_ref', f'DESIGN.md section 6 ({pid}: plan) and section 11.2 (as built)')},
         'level_note': claim['note'],
         'technique': claim['technique'],
     })
